@@ -1,6 +1,7 @@
 //! mb2h — correspondence harness. Reads one case per line on stdin, calls the real
 //! multiboot2 / multiboot2-common / multiboot2-header API in-process, writes one canonical
 //! observation line per case on stdout (flushed per line so that a crash pinpoints the case).
+mod cast_fam;
 mod common_fam;
 mod header_fam;
 mod ids_fam;
@@ -29,6 +30,7 @@ fn handle(ctx: &Ctx, line: &str) -> String {
         "CKS" => header_fam::cks_case(&t),
         "FIND" => header_fam::find_case(ctx, &t),
         "SWEEP" => sweep::sweep_case(ctx, &t),
+        "CAST" => cast_fam::cast_case(ctx, &t),
         f => format!("unknown-family:{}", f),
     }
 }
